@@ -15,7 +15,7 @@ abbrev Bytes := List Nat
 
 /-! ## Part 1: file store -/
 
-def kvKeyPrefix : Path := "/acme-storage/".toList
+def kvKeyPrefix : Path := ['/', 'a', 'c', 'm', 'e', '-', 's', 't', 'o', 'r', 'a', 'g', 'e', '/']
 
 /-- `kvKeyName` (acme/acme.go) -/
 def kvKeyName (k : Path) : Path := kvKeyPrefix ++ k
@@ -37,8 +37,12 @@ def Kv.get (kv : Kv) (k : Path) : Option Bytes :=
 def Kv.put (kv : Kv) (k : Path) (v : Option Bytes) : Kv := (k, v) :: kv.filter (fun e => e.1 != k)
 
 /-- `MemoryKV.ListKeys` restricted to SIMPLE composites: string-prefix scan, only values of length > 0 -/
+def nonEmpty : Option Bytes → Bool
+  | some (_ :: _) => true
+  | _ => false
+
 def Kv.listSimple (kv : Kv) (pfx : Path) : List Path :=
-  (kv.filter (fun e => pfx.isPrefixOf e.1 && (match e.2 with | some (_ :: _) => true | _ => false))).map (·.1)
+  (kv.map (·.1)).filter (fun k => pfx.isPrefixOf k && nonEmpty (kv.get k))
 
 inductive Op where
   | store (k : Path) (v : Bytes)
